@@ -63,14 +63,6 @@ Theorem C17_F4_refuted :
 Proof. exact F4_refuted. Qed.
 Print Assumptions C17_F4_refuted.
 
-Theorem C17_never_both_refuted :
-  exists w scanned h n o f,
-    hist_ok h = true /\
-    let s := fst (crun src_cfg w h (init w scanned)) in
-    In (EvImm f n) (log s) /\ (exists d, In (EvCallM o n d) (log s)) /\ g_bad s = true.
-Proof. exact never_both_refuted. Qed.
-Print Assumptions C17_never_both_refuted.
-
 (* ---------------------------------------------------------------------------------------------
    NOT PROVED (statements kept; each is checked by the direct oracle of harness/c17.py on every
    generated history and checkpoint-driven schedule, see CONFIG["unproved_legs"]):
